@@ -15,8 +15,8 @@ theorem init_inv13 (spec : WfSpec) (parentCtx inputs : Val.Dict) : Inv13 (init E
   have h0 : Inv13 ({ spec := spec, graph := compose spec, inputs := inputs, parentCtx := parentCtx } : Cond) := by
     intro r hr
     cases hr
-  have hm : Rel inv13Pre (do logError "ExpressionEvaluationException"; requestStatus .failed : M Unit) := by
-    inv13_walk [requestStatus_inv13 _]
+  have hm : Rel inv13Pre (do logError "ExpressionEvaluationException"; failOnError : M Unit) := by
+    inv13_walk [requestStatus_inv13 _, failOnError_inv13]
   split
   · split
     · exact hm.run _ h0
@@ -81,9 +81,16 @@ theorem C13_retrying_only_by_retry_event (c : Cond) (r : Rec) (ev : Event)
 /-- the retry event is issued by `update_task_state` only after `_evaluate_task_retry` said yes on
     the record it is about to reopen: the decision phase returning `true` leaves a record on which
     attempts remain -/
-theorem C13_retry_event_licensed (k : TaskKey) (idx : Nat) (ts : TaskSpec) (ns : Status) (ev : Event)
-    (c c' : Cond) (h : completedRetryDecision E k idx ts ns ev c = (.ok true, c')) : CanBump c' idx :=
-  completedRetryDecision_true E k idx ts ns ev c c' h
+theorem C13_retry_event_licensed (k : TaskKey) (idx : Nat) (ts : TaskSpec) (os ns : Status) (ev : Event)
+    (c c' : Cond) (h : completedRetryDecision E k idx ts os ns ev c = (.ok true, c')) : CanBump c' idx :=
+  completedRetryDecision_true E k idx ts os ns ev c c' h
+
+/-- **C13/C18**: a report that leaves the status of a completed record as it was — a late or duplicate
+    completion report — never reopens it: the decision phase asks for a retry only when the event
+    changed the record's status (so a record whose transitions have been decided is not retried) -/
+theorem C13_no_retry_without_status_change (k : TaskKey) (idx : Nat) (ts : TaskSpec) (os ns : Status)
+    (ev : Event) (c c' : Cond) (h : completedRetryDecision E k idx ts os ns ev c = (.ok true, c')) : ns ≠ os :=
+  completedRetryDecision_changed E k idx ts os ns ev c c' h
 
 /-- the hypothesis of `C13_tally_bounded` is what every provider history satisfies -/
 example : ∀ op ∈ [Op.req .running, .next, .report ("t", 0) (.action .failed .null),
